@@ -143,6 +143,7 @@ func (c *zzChainModel) SendRawTransaction(tx *wire.MsgTx, _ bool) (*chainhash.Ha
 }
 
 type zzWalletWorld struct {
+	coins9 []wire.OutPoint // C09: funding outpoints
 	db     *memdb.DB
 	w      *Wallet
 	chain  *zzChainModel
